@@ -97,7 +97,10 @@ int streamWrapper(void *ptr, const MPT_STRUCT(message) *msg)
 				        MPT_tr("dispatch failed"), MPT_tr("unknown reply id"), mid);
 				return MPT_ERROR(BadValue);
 			}
-			return ans->cmd(ans->arg, &tmp);
+			/* reply handler is finished with first answer */
+			ret = ans->cmd(ans->arg, &tmp);
+			ans->cmd = 0;
+			return ret;
 		}
 		ctx = 0;
 		for (i = 0; i < idlen; ++i) {
@@ -240,7 +243,10 @@ extern int mpt_connection_dispatch(MPT_STRUCT(connection) *con, MPT_TYPE(event_h
 		}
 		msg.base = data + hlen;
 		msg.used = buf->_used - hlen;
-		if ((len = ans->cmd(ans->arg, &msg)) < 0) {
+		/* reply handler is finished with first answer */
+		len = ans->cmd(ans->arg, &msg);
+		ans->cmd = 0;
+		if (len < 0) {
 			mpt_log(0, _func, MPT_LOG(Error), "%s (%i)",
 			        MPT_tr("reply processing failed"), len);
 			return MPT_ERROR(MissingBuffer);
